@@ -1,8 +1,8 @@
 TRUSTED = ["Coq 8.16.1 kernel (coqc full .vo build; vm_compute used only to evaluate the model/oracles on concrete cases)",
-           "hand-written Gallina models coq/Model/Cfg*.v, Pda.v, LL1.v, CfgInter.v: validated against /repo by the differential correspondence; only the nullable expansion, its wrapper and the production normal-form test are regenerated from the source (tools/pygen.py, trusted translator)",
+           "hand-written Gallina models coq/Model/Cfg*.v, WordsDp.v, Deriv.v, Pda.v, LL1.v, CfgInter.v, Ig.v, IgUseless.v, Feat.v: validated against /repo by the differential correspondence; only the nullable expansion, its wrapper and the production normal-form test are regenerated from the source (tools/pygen.py, trusted translator)",
            "hypotheses of theorems that are constructor invariants (registration of heads / body symbols, NoDup of the variable and terminal sets) hold of every object the harness builds; axioms: none (Print Assumptions closed; coqchk -o: none)",
            "certified membership oracle coq/Oracle/CfgMember*.v (chart saturation, exact for arbitrary grammars)",
-           "Python harness: generators, accessors through pyformlang's public API, interning of values to N, Coq-output parser"]
+           "Python harness: generators, accessors through pyformlang's public API, interning of values to N, Coq-output parser; a model / oracle evaluation that exceeds its time budget is counted and skipped (MODEL_TIMEOUT), never judged"]
 ASSUMPTIONS = ["variable and terminal values are ints or strings (interned to N for the model); a variable and a terminal with the same value are distinct symbols in the model",
                "language agreement between two grammars is checked on all words up to a length bound with the certified membership oracle: bounded validation, not a proof",
                "the correspondence leg is differential testing; the universally quantified claims are the Coq theorems about the model"]
